@@ -4,13 +4,21 @@
   for a replace step against any mark / node-mark / attr step (add-mark steps *after* the replaced
   range under the visible guard `ParentStable`: the known finding "mark step vs. parent-retyping
   replace", DESIGN.md), and for two markup steps on disjoint tokens.  Pairs involving
-  replace-around steps: rebasing (`rebase_markup_not_dropped_around`) only; convergence is covered
-  by the correspondence run and the search.  "Each application succeeds" is a hypothesis of the
+  replace-around steps (lift, wrap, set_node_markup, set_block_type): last section of this file —
+  rebasing over a step before the range, after it or inside the kept gap never drops either step
+  (`rebase_around_separated`, `rebase_around_around`, `rebase_markup_not_dropped_around`); convergence
+  whenever all four applications succeed against a replace step (`commute_replace_around`), another
+  replace-around step (`commute_around_around`), node-mark / attr steps (`commute_around_nodeStep`) and mark
+  steps (`commute_around_mark_unguarded`, `commute_around_mark_partial` under `ParentStable`).
+  "Each application succeeds" is a hypothesis of the
   convergence theorems; that the two rebased replace steps *do* apply is proved under the decidable guard
   `commuteGuard` (`commute_succeeds_replace`: one step inside a node the other does not touch; false
-  without a guard, `commute_needs_guard`).
+  without a guard, `commute_needs_guard`), and likewise for a replace step outside `[from, to]` of a
+  replace-around step (`commute_succeeds_around`).
   Helper lemmas: Proofs/Commute.lean, Proofs/CommuteMarkup.lean, Proofs/CommuteSuccess.lean,
-  Proofs/CommuteSuccessR.lean, Proofs/Lvl.lean.
+  Proofs/CommuteSuccessR.lean, Proofs/Lvl.lean; for replace-around steps Proofs/CommuteAround.lean,
+  Proofs/CommuteAroundDocs.lean, Proofs/CommuteAroundMarkup.lean, Proofs/CommuteAroundSuccess.lean,
+  Proofs/ContentBetweenToks.lean.
 -/
 import PM.Step
 import Proofs.StepToks
@@ -18,6 +26,10 @@ import Proofs.Commute
 import Proofs.CommuteMarkup
 import Proofs.CommuteSuccess
 import Proofs.CommuteSuccessR
+import Proofs.CommuteAround
+import Proofs.CommuteAroundDocs
+import Proofs.CommuteAroundMarkup
+import Proofs.CommuteAroundSuccess
 namespace PM.C17
 open PM
 
@@ -598,5 +610,554 @@ theorem commute_needs_guard :
     simp [v4a]
   · simp [n0, q, Node.kids, commuteGuard, insideLeft, insideRight]
 end NeedsGuard
+
+/-! ## pairs with a replace-around step (lift, wrap, set_node_markup, set_block_type)
+
+  A replace-around step `(from, to, gapFrom, gapTo, slice, insert)` touches the two ranges
+  `[from, gapFrom)` and `[gapTo, to)` and keeps the gap between them.  A step is *separated* from it when
+  it lies strictly before `from`, strictly after `to`, or strictly inside the kept gap (at least one
+  untouched token on either side).  `AroundShape` (Proofs/CommuteAroundDocs.lean) = the ranges are in
+  order, the slice is well-formed and `insert ≤ slice.size`: the shape of every replace-around step
+  the library builds, invariant under rebasing.
+  Helper lemmas: Proofs/CommuteAround.lean (splices, rebasing), Proofs/CommuteAroundDocs.lean. -/
+
+/-- **rebasing over a separated step never drops a replace-around step or the replace step**: the
+    three positions of a replace step relative to a replace-around step.  `δ1` = size change of the
+    replace step, `δX` / `δY` = size changes of the replace-around step's two ranges. -/
+theorem rebase_around_separated (f t gf gt ins f1 t1 : Nat) (sl s1 : Slice) (st b1 : Bool)
+    (hg : f ≤ gf ∧ gf ≤ gt ∧ gt ≤ t) (h1 : f1 ≤ t1) :
+    let A := Step.replaceAround f t gf gt sl ins st
+    let R := Step.replace f1 t1 s1 b1
+    let δ1 : Int := s1.size - ((t1 : Int) - f1)
+    let δX : Int := (ins : Int) - ((gf : Int) - f)
+    let δY : Int := sl.size - ins - ((t : Int) - gt)
+    (t1 < f →
+      A.map R.getMap = some (.replaceAround ((f : Int) + δ1).toNat ((t : Int) + δ1).toNat
+        ((gf : Int) + δ1).toNat ((gt : Int) + δ1).toNat sl ins st) ∧
+      R.map A.getMap = some (.replace f1 t1 s1 false)) ∧
+    (gf < f1 → t1 < gt →
+      A.map R.getMap = some (.replaceAround f ((t : Int) + δ1).toNat gf ((gt : Int) + δ1).toNat sl ins st) ∧
+      R.map A.getMap = some (.replace ((f1 : Int) + δX).toNat ((t1 : Int) + δX).toNat s1 false)) ∧
+    (t < f1 →
+      A.map R.getMap = some A ∧
+      R.map A.getMap = some (.replace ((f1 : Int) + δX + δY).toNat ((t1 : Int) + δX + δY).toNat s1 false)) := by
+  intro A R δ1 δX δY
+  refine ⟨fun h => ⟨?_, ?_⟩, fun h h' => ⟨?_, ?_⟩, fun h => ⟨?_, ?_⟩⟩
+  · exact around_map_replace_before f t gf gt ins f1 t1 sl s1 st b1 hg h1 h
+  · exact replace_map_around_after f t gf gt ins f1 t1 sl s1 st b1 h1 h
+  · exact around_map_replace_gap f t gf gt ins f1 t1 sl s1 st b1 hg h1 h h'
+  · exact replace_map_around_gap f t gf gt ins f1 t1 sl s1 st b1 hg h1 h h'
+  · exact around_map_replace_after f t gf gt ins f1 t1 sl s1 st b1 hg h
+  · exact replace_map_around_before f t gf gt ins f1 t1 sl s1 st b1 hg h1 h
+
+/-- the same for two replace-around steps: the second one after the first one, or inside its gap
+    (the two remaining positions are these with the roles exchanged) -/
+theorem rebase_around_around (f t gf gt ins f' t' gf' gt' ins' : Nat) (sl sl' : Slice) (st st' : Bool)
+    (hg : f ≤ gf ∧ gf ≤ gt ∧ gt ≤ t) (hg' : f' ≤ gf' ∧ gf' ≤ gt' ∧ gt' ≤ t') :
+    let A := Step.replaceAround f t gf gt sl ins st
+    let B := Step.replaceAround f' t' gf' gt' sl' ins' st'
+    let δX : Int := (ins : Int) - ((gf : Int) - f)
+    let Δ : Int := ((ins : Int) - ((gf : Int) - f)) + (sl.size - ins - ((t : Int) - gt))
+    let Δ' : Int := ((ins' : Int) - ((gf' : Int) - f')) + (sl'.size - ins' - ((t' : Int) - gt'))
+    (t < f' →
+      A.map B.getMap = some A ∧
+      B.map A.getMap = some (.replaceAround ((f' : Int) + Δ).toNat ((t' : Int) + Δ).toNat
+        ((gf' : Int) + Δ).toNat ((gt' : Int) + Δ).toNat sl' ins' st')) ∧
+    (gf < f' → t' < gt →
+      A.map B.getMap = some (.replaceAround f ((t : Int) + Δ').toNat gf ((gt : Int) + Δ').toNat sl ins st) ∧
+      B.map A.getMap = some (.replaceAround ((f' : Int) + δX).toNat ((t' : Int) + δX).toNat
+        ((gf' : Int) + δX).toNat ((gt' : Int) + δX).toNat sl' ins' st')) := by
+  intro A B δX Δ Δ'
+  refine ⟨fun h => ⟨?_, ?_⟩, fun h h' => ⟨?_, ?_⟩⟩
+  · exact around_map_around_before f t gf gt ins f' t' gf' gt' ins' sl sl' st st' hg h
+  · exact around_map_around_after f t gf gt ins f' t' gf' gt' ins' sl sl' st st' hg hg' h
+  · exact around_map_around_outer f t gf gt ins f' t' gf' gt' ins' sl sl' st st' hg hg' h h'
+  · exact around_map_around_gap f t gf gt ins f' t' gf' gt' ins' sl sl' st st' hg hg' h h'
+
+/-- a shifted replace-around step of the library's shape, and a non-trivial instance of the rebasing
+    rule: wrapping `[3, 7)` (`insert = 1` of a 2-token slice) against an insertion of 2 tokens at 1 -/
+example : AroundShape 3 7 3 7 ⟨[.elem 1 [] [] []], 0, 0⟩ 1 ∧
+    (Step.replaceAround 3 7 3 7 ⟨[.elem 1 [] [] []], 0, 0⟩ 1 true).map
+      (Step.replace 1 1 ⟨[.text [120, 121] []], 0, 0⟩ false).getMap =
+      some (.replaceAround 5 9 5 9 ⟨[.elem 1 [] [] []], 0, 0⟩ 1 true) := by
+  constructor
+  · decide
+  · decide
+
+/-- **convergence, replace step vs. separated replace-around step, on tokens**: whenever all four
+    applications succeed, both orders give the same token sequence, namely the base document with the
+    three ranges replaced: `d[:f1] S1 d[t1:f] S[:ins] d[gf:gt] S[ins:] d[t:]` (replace step first),
+    `d[:f] S[:ins] d[gf:f1] S1 d[t1:gt] S[ins:] d[t:]` (replace step inside the gap),
+    `d[:f] S[:ins] d[gf:gt] S[ins:] d[t:f1] S1 d[t1:]` (replace step last) -/
+theorem commute_replace_around_toks (S : Schema) (d da db dab dba : Node) (f t gf gt ins f1 t1 : Nat)
+    (sl s1 : Slice) (st b1 : Bool) (A' R' : Step)
+    (hs : AroundShape f t gf gt sl ins)
+    (hsep : t1 < f ∨ (gf < f1 ∧ t1 < gt) ∨ t < f1)
+    (ha : S.apply (.replace f1 t1 s1 b1) d = .ok da)
+    (hb : S.apply (.replaceAround f t gf gt sl ins st) d = .ok db)
+    (hA' : (Step.replaceAround f t gf gt sl ins st).map (Step.replace f1 t1 s1 b1).getMap = some A')
+    (hR' : (Step.replace f1 t1 s1 b1).map (Step.replaceAround f t gf gt sl ins st).getMap = some R')
+    (hab : S.apply A' da = .ok dab) (hba : S.apply R' db = .ok dba) :
+    let L := ftoks d.kids
+    let X := sl.toks.take ins
+    let Y := sl.toks.drop ins
+    ftoks dba.kids = ftoks dab.kids ∧
+    (t1 < f → ftoks dab.kids = L.take f1 ++ s1.toks ++ (L.drop t1).take (f - t1) ++ X ++
+      (L.drop gf).take (gt - gf) ++ Y ++ L.drop t) ∧
+    (gf < f1 → t1 < gt → ftoks dab.kids = L.take f ++ X ++ (L.drop gf).take (f1 - gf) ++ s1.toks ++
+      (L.drop t1).take (gt - t1) ++ Y ++ L.drop t) ∧
+    (t < f1 → ftoks dab.kids = L.take f ++ X ++ (L.drop gf).take (gt - gf) ++ Y ++
+      (L.drop t).take (f1 - t) ++ s1.toks ++ L.drop t1) := by
+  intro L X Y
+  obtain ⟨_, h1, hl1, _⟩ := apply_replace_splice S d da f1 t1 s1 b1 ha
+  obtain ⟨_, hl, _, _⟩ := apply_around_aroundL S d db f t gf gt sl ins st hs hb
+  have hg := hs.2.2
+  have before : t1 < f → ftoks dba.kids = ftoks dab.kids ∧ ftoks dab.kids = L.take f1 ++ s1.toks ++
+      (L.drop t1).take (f - t1) ++ X ++ (L.drop gf).take (gt - gf) ++ Y ++ L.drop t := by
+    intro h
+    obtain ⟨e1, e2⟩ := commute_replace_around_before S d da db dab dba f t gf gt ins f1 t1 sl s1 st b1
+      A' R' hs h ha hb hA' hR' hab hba
+    exact ⟨e2, by rw [e1]; exact explicit_before L s1.toks X Y f1 t1 f gf gt t h1 (by omega) hg hl⟩
+  have gap : gf < f1 → t1 < gt → ftoks dba.kids = ftoks dab.kids ∧ ftoks dab.kids = L.take f ++ X ++
+      (L.drop gf).take (f1 - gf) ++ s1.toks ++ (L.drop t1).take (gt - t1) ++ Y ++ L.drop t := by
+    intro h h'
+    obtain ⟨e1, e2⟩ := commute_replace_around_gap S d da db dab dba f t gf gt ins f1 t1 sl s1 st b1
+      A' R' hs h h' ha hb hA' hR' hab hba
+    exact ⟨e2, by rw [e1]; exact explicit_gap L s1.toks X Y f1 t1 f gf gt t h1 (by omega) (by omega) hg hl⟩
+  have after : t < f1 → ftoks dba.kids = ftoks dab.kids ∧ ftoks dab.kids = L.take f ++ X ++
+      (L.drop gf).take (gt - gf) ++ Y ++ (L.drop t).take (f1 - t) ++ s1.toks ++ L.drop t1 := by
+    intro h
+    obtain ⟨e1, e2⟩ := commute_replace_around_after S d da db dab dba f t gf gt ins f1 t1 sl s1 st b1
+      A' R' hs h ha hb hA' hR' hab hba
+    exact ⟨e2, by rw [e1]; exact explicit_after L s1.toks X Y f1 t1 f gf gt t h1 (by omega) hg hl1⟩
+  refine ⟨?_, fun h => (before h).2, fun h h' => (gap h h').2, fun h => (after h).2⟩
+  rcases hsep with h | ⟨h, h'⟩ | h
+  · exact (before h).1
+  · exact (gap h h').1
+  · exact (after h).1
+
+/-- … hence equal documents (normal form) -/
+theorem commute_replace_around (S : Schema) (d da db dab dba : Node) (f t gf gt ins f1 t1 : Nat)
+    (sl s1 : Slice) (st b1 : Bool) (A' R' : Step)
+    (hs : AroundShape f t gf gt sl ins)
+    (hsep : t1 < f ∨ (gf < f1 ∧ t1 < gt) ∨ t < f1)
+    (ha : S.apply (.replace f1 t1 s1 b1) d = .ok da)
+    (hb : S.apply (.replaceAround f t gf gt sl ins st) d = .ok db)
+    (hA' : (Step.replaceAround f t gf gt sl ins st).map (Step.replace f1 t1 s1 b1).getMap = some A')
+    (hR' : (Step.replace f1 t1 s1 b1).map (Step.replaceAround f t gf gt sl ins st).getMap = some R')
+    (hab : S.apply A' da = .ok dab) (hba : S.apply R' db = .ok dba)
+    (hn1 : fnorm dab.kids = true) (hn2 : fnorm dba.kids = true) : dab = dba := by
+  have htoks := (commute_replace_around_toks S d da db dab dba f t gf gt ins f1 t1 sl s1 st b1 A' R' hs
+    hsep ha hb hA' hR' hab hba).1
+  obtain ⟨_, h1, _, _⟩ := apply_replace_splice S d da f1 t1 s1 b1 ha
+  have hg := hs.2.2
+  obtain ⟨r1, r2, r3⟩ := rebase_around_separated f t gf gt ins f1 t1 sl s1 st b1 hg h1
+  have root : SameRoot dab dba := by
+    have ra := SameRoot.of_replace S d da f1 t1 s1 b1 ha
+    have rb := SameRoot.of_around S d db f t gf gt sl ins st hb
+    rcases hsep with h | ⟨h, h'⟩ | h
+    · obtain ⟨e1, e2⟩ := r1 h
+      rw [e1] at hA'; rw [e2] at hR'
+      simp only [Option.some.injEq] at hA' hR'
+      subst hA' hR'
+      exact SameRoot.square ra (SameRoot.of_around S _ _ _ _ _ _ _ _ _ hab) rb
+        (SameRoot.of_replace S _ _ _ _ _ _ hba)
+    · obtain ⟨e1, e2⟩ := r2 h h'
+      rw [e1] at hA'; rw [e2] at hR'
+      simp only [Option.some.injEq] at hA' hR'
+      subst hA' hR'
+      exact SameRoot.square ra (SameRoot.of_around S _ _ _ _ _ _ _ _ _ hab) rb
+        (SameRoot.of_replace S _ _ _ _ _ _ hba)
+    · obtain ⟨e1, e2⟩ := r3 h
+      rw [e1] at hA'; rw [e2] at hR'
+      simp only [Option.some.injEq] at hA' hR'
+      subst hA' hR'
+      exact SameRoot.square ra (SameRoot.of_around S _ _ _ _ _ _ _ _ _ hab) rb
+        (SameRoot.of_replace S _ _ _ _ _ _ hba)
+  exact root.eq_of_toks htoks.symm hn1 hn2
+
+/-- **convergence, two separated replace-around steps** (the second one after the first one or inside
+    its gap; exchange the roles for the other two positions): whenever all four applications succeed,
+    both orders give the same tokens, hence (normal form) the same document -/
+theorem commute_around_around (S : Schema) (d da db dab dba : Node)
+    (f t gf gt ins f' t' gf' gt' ins' : Nat) (sl sl' : Slice) (st st' : Bool) (A' B' : Step)
+    (hs : AroundShape f t gf gt sl ins) (hs' : AroundShape f' t' gf' gt' sl' ins')
+    (hsep : t < f' ∨ (gf < f' ∧ t' < gt))
+    (ha : S.apply (.replaceAround f t gf gt sl ins st) d = .ok da)
+    (hb : S.apply (.replaceAround f' t' gf' gt' sl' ins' st') d = .ok db)
+    (hB' : (Step.replaceAround f' t' gf' gt' sl' ins' st').map
+      (Step.replaceAround f t gf gt sl ins st).getMap = some B')
+    (hA' : (Step.replaceAround f t gf gt sl ins st).map
+      (Step.replaceAround f' t' gf' gt' sl' ins' st').getMap = some A')
+    (hab : S.apply B' da = .ok dab) (hba : S.apply A' db = .ok dba) :
+    ftoks dab.kids = ftoks dba.kids ∧
+    (fnorm dab.kids = true → fnorm dba.kids = true → dab = dba) := by
+  have htoks : ftoks dab.kids = ftoks dba.kids := by
+    rcases hsep with h | ⟨h, h'⟩
+    · exact (commute_around_around_after S d da db dab dba f t gf gt ins f' t' gf' gt' ins' sl sl' st st'
+        A' B' hs hs' h ha hb hB' hA' hab hba).2
+    · exact (commute_around_around_gap S d da db dab dba f t gf gt ins f' t' gf' gt' ins' sl sl' st st'
+        A' B' hs hs' h h' ha hb hB' hA' hab hba).2
+  refine ⟨htoks, fun hn1 hn2 => ?_⟩
+  obtain ⟨r1, r2⟩ := rebase_around_around f t gf gt ins f' t' gf' gt' ins' sl sl' st st' hs.2.2 hs'.2.2
+  have ra := SameRoot.of_around S d da f t gf gt sl ins st ha
+  have rb := SameRoot.of_around S d db f' t' gf' gt' sl' ins' st' hb
+  have root : SameRoot dab dba := by
+    rcases hsep with h | ⟨h, h'⟩
+    · obtain ⟨e1, e2⟩ := r1 h
+      rw [e1] at hA'; rw [e2] at hB'
+      simp only [Option.some.injEq] at hA' hB'
+      subst hA' hB'
+      exact SameRoot.square ra (SameRoot.of_around S _ _ _ _ _ _ _ _ _ hab) rb
+        (SameRoot.of_around S _ _ _ _ _ _ _ _ _ hba)
+    · obtain ⟨e1, e2⟩ := r2 h h'
+      rw [e1] at hA'; rw [e2] at hB'
+      simp only [Option.some.injEq] at hA' hB'
+      subst hA' hB'
+      exact SameRoot.square ra (SameRoot.of_around S _ _ _ _ _ _ _ _ _ hab) rb
+        (SameRoot.of_around S _ _ _ _ _ _ _ _ _ hba)
+  exact root.eq_of_toks htoks hn1 hn2
+
+/-! ### replace-around step vs. markup step -/
+
+/-- the shared end of the three clauses below: equal tokens and a kept markup step give equal documents -/
+theorem around_markup_docs (S : Schema) (d da db dab dba : Node) (f t gf gt ins : Nat) (sl : Slice)
+    (st : Bool) (M : Step) (g : Nat → Nat) (plo phi : Nat) (hsp : M.posSpan = some (plo, phi))
+    (ha : S.apply (.replaceAround f t gf gt sl ins st) d = .ok da) (hb : S.apply M d = .ok db)
+    (hab : S.apply (M.mapPos g) da = .ok dab) (hba : S.apply (.replaceAround f t gf gt sl ins st) db = .ok dba)
+    (htoks : ftoks dab.kids = ftoks dba.kids)
+    (hn1 : fnorm dab.kids = true) (hn2 : fnorm dba.kids = true) : dab = dba :=
+  (SameRoot.square (SameRoot.of_around S _ _ _ _ _ _ _ _ _ ha)
+    (SameRoot.of_markup S _ _ _ _ _ (posSpan_mapPos M g plo phi hsp) hab)
+    (SameRoot.of_markup S _ _ _ _ _ hsp hb)
+    (SameRoot.of_around S _ _ _ _ _ _ _ _ _ hba)).eq_of_toks htoks hn1 hn2
+
+/-- **a replace-around step and a node-mark or attr step on a separated token** — before the step's
+    range, after it, or *inside the kept gap* (the gap content is kept and moves by
+    `insert − (gapFrom − from)`): neither rebased step is dropped (the node step is the same step at
+    the moved position, the replace-around step is unchanged), and whenever all four applications
+    succeed both orders give the same tokens, hence (normal form) the same document.  No guard. -/
+theorem commute_around_nodeStep (S : Schema) (d da db dab dba : Node) (f t gf gt ins : Nat) (sl : Slice)
+    (st : Bool) (pos : Nat) (N N' A' : Step) (hN : NodeStepAt pos N)
+    (hs : AroundShape f t gf gt sl ins)
+    (hout : pos < f ∨ (gf < pos ∧ pos < gt) ∨ t < pos)
+    (ha : S.apply (.replaceAround f t gf gt sl ins st) d = .ok da) (hb : S.apply N d = .ok db)
+    (hN' : N.map (Step.replaceAround f t gf gt sl ins st).getMap = some N')
+    (hA' : (Step.replaceAround f t gf gt sl ins st).map N.getMap = some A')
+    (hab : S.apply N' da = .ok dab) (hba : S.apply A' db = .ok dba) :
+    (∃ g, N' = N.mapPos g) ∧ A' = .replaceAround f t gf gt sl ins st ∧
+    ftoks dab.kids = ftoks dba.kids ∧
+    (fnorm dab.kids = true → fnorm dba.kids = true → dab = dba) := by
+  have hsp : N.posSpan = some (pos, pos) := by
+    rcases hN with ⟨m, rfl⟩ | ⟨m, rfl⟩ | ⟨n, v, rfl⟩ <;> rfl
+  have hto : N.touch = some (pos, pos + 1) := by
+    rcases hN with ⟨m, rfl⟩ | ⟨m, rfl⟩ | ⟨n, v, rfl⟩ <;> rfl
+  have hfn : ∀ p q tok, markupFn S N p tok = markupFn S N q tok := by
+    rcases hN with ⟨m, rfl⟩ | ⟨m, rfl⟩ | ⟨n, v, rfl⟩ <;> intro p q tok <;> rfl
+  have key : ∃ g, N' = N.mapPos g ∧ A' = .replaceAround f t gf gt sl ins st ∧
+      ftoks dab.kids = ftoks dba.kids := by
+    rcases hout with h | ⟨h, h'⟩ | h
+    · obtain ⟨e1, e2, e3⟩ := commute_around_markup_before S d da db dab dba f t gf gt ins sl st N N' A'
+        pos pos hsp (Nat.le_refl _) hs h ha hb hN' hA' hab hba
+      exact ⟨id, by rw [e1]; exact (Step.mapPos_id _ id (fun _ => rfl)).symm, e2, e3⟩
+    · obtain ⟨e1, e2, e3⟩ := commute_around_markup_gap S d da db dab dba f t gf gt ins sl st N N' A'
+        pos pos hsp (Nat.le_refl _) hs h h' ha hb hN' hA' hab hba (pos + 1) hto
+        (fun i tok _ _ _ => hfn _ _ _)
+      exact ⟨_, e1, e2, e3⟩
+    · obtain ⟨e1, e2, e3⟩ := commute_around_markup_after S d da db dab dba f t gf gt ins sl st N N' A'
+        pos pos hsp (Nat.le_refl _) hs h ha hb hN' hA' hab hba (pos + 1) hto
+        (fun i tok _ _ _ => hfn _ _ _)
+      exact ⟨_, e1, e2, e3⟩
+  obtain ⟨g, e1, e2, e3⟩ := key
+  refine ⟨⟨g, e1⟩, e2, e3, fun hn1 hn2 => ?_⟩
+  subst e1 e2
+  exact around_markup_docs S d da db dab dba f t gf gt ins sl st N g pos pos hsp ha hb hab hba e3 hn1 hn2
+
+/-- **replace-around step vs. a mark step before its range, and vs. a remove-mark step on any separated
+    range**: no guard (earlier tokens keep their enclosing nodes; removing a mark does not look at the
+    enclosing node) -/
+theorem commute_around_mark_unguarded (S : Schema) (d da db dab dba : Node) (f t gf gt ins : Nat)
+    (sl : Slice) (st : Bool) (f2 t2 : Nat) (mk : Mark) (M M' A' : Step) (hle : f2 ≤ t2)
+    (hs : AroundShape f t gf gt sl ins)
+    (hM : (M = .addMark f2 t2 mk ∧ t2 < f) ∨
+      (M = .removeMark f2 t2 mk ∧ (t2 < f ∨ (gf < f2 ∧ t2 < gt) ∨ t < f2)))
+    (ha : S.apply (.replaceAround f t gf gt sl ins st) d = .ok da) (hb : S.apply M d = .ok db)
+    (hM' : M.map (Step.replaceAround f t gf gt sl ins st).getMap = some M')
+    (hA' : (Step.replaceAround f t gf gt sl ins st).map M.getMap = some A')
+    (hab : S.apply M' da = .ok dab) (hba : S.apply A' db = .ok dba) :
+    ftoks dab.kids = ftoks dba.kids ∧
+    (fnorm dab.kids = true → fnorm dba.kids = true → dab = dba) := by
+  have hsp : M.posSpan = some (f2, t2) := by rcases hM with ⟨rfl, _⟩ | ⟨rfl, _⟩ <;> rfl
+  have key : ∃ g, M' = M.mapPos g ∧ A' = .replaceAround f t gf gt sl ins st ∧
+      ftoks dab.kids = ftoks dba.kids := by
+    have before : t2 < f → ∃ g, M' = M.mapPos g ∧ A' = .replaceAround f t gf gt sl ins st ∧
+        ftoks dab.kids = ftoks dba.kids := by
+      intro h
+      obtain ⟨e1, e2, e3⟩ := commute_around_markup_before S d da db dab dba f t gf gt ins sl st M M' A'
+        f2 t2 hsp hle hs h ha hb hM' hA' hab hba
+      exact ⟨id, by rw [e1]; exact (Step.mapPos_id _ id (fun _ => rfl)).symm, e2, e3⟩
+    rcases hM with ⟨rfl, h⟩ | ⟨rfl, h | ⟨h, h'⟩ | h⟩
+    · exact before h
+    · exact before h
+    · obtain ⟨e1, e2, e3⟩ := commute_around_markup_gap S d da db dab dba f t gf gt ins sl st _ M' A'
+        f2 t2 hsp hle hs h h' ha hb hM' hA' hab hba t2 rfl (fun i tok _ _ _ => rfl)
+      exact ⟨_, e1, e2, e3⟩
+    · obtain ⟨e1, e2, e3⟩ := commute_around_markup_after S d da db dab dba f t gf gt ins sl st _ M' A'
+        f2 t2 hsp hle hs h ha hb hM' hA' hab hba t2 rfl (fun i tok _ _ _ => rfl)
+      exact ⟨_, e1, e2, e3⟩
+  obtain ⟨g, e1, e2, e3⟩ := key
+  refine ⟨e3, fun hn1 hn2 => ?_⟩
+  subst e1 e2
+  exact around_markup_docs S d da db dab dba f t gf gt ins sl st M g f2 t2 hsp ha hb hab hba e3 hn1 hn2
+
+/-- **replace-around step vs. add-mark step inside the kept gap or after the range, under
+    `ParentStable`** (the marked inline atoms keep the type of their enclosing node: true for `wrap`
+    and `lift`, which re-parent blocks, not inline content; for `set_node_markup` / `set_block_type` it
+    says that the marked text's parent keeps its type).  Without the guard the statement is false for
+    the same reason as `commute_replace_mark_partial`. -/
+-- FULL STATEMENT (false in the reference implementation too): the same without `hstable`.
+theorem commute_around_mark_partial (S : Schema) (d da db dab dba : Node) (f t gf gt ins : Nat)
+    (sl : Slice) (st : Bool) (f2 t2 f2' t2' : Nat) (mk : Mark) (A' : Step) (hle : f2 ≤ t2)
+    (hs : AroundShape f t gf gt sl ins)
+    (hsep : (gf < f2 ∧ t2 < gt) ∨ t < f2)
+    (ha : S.apply (.replaceAround f t gf gt sl ins st) d = .ok da)
+    (hb : S.apply (.addMark f2 t2 mk) d = .ok db)
+    (hM' : (Step.addMark f2 t2 mk).map (Step.replaceAround f t gf gt sl ins st).getMap =
+      some (.addMark f2' t2' mk))
+    (hA' : (Step.replaceAround f t gf gt sl ins st).map (Step.addMark f2 t2 mk).getMap = some A')
+    (hab : S.apply (.addMark f2' t2' mk) da = .ok dab) (hba : S.apply A' db = .ok dba)
+    (hstable : ParentStable S d da f2 t2 f2') :
+    ftoks dab.kids = ftoks dba.kids ∧
+    (fnorm dab.kids = true → fnorm dba.kids = true → dab = dba) := by
+  have hsp : (Step.addMark f2 t2 mk).posSpan = some (f2, t2) := rfl
+  have hg := hs.2.2
+  obtain ⟨hlenS, hs0⟩ := Slice.toks_length_of_wf_ex sl hs.1
+  have hins := hs.2.1
+  have stab : ∀ (c : Nat), f2' = c + 0 → ∀ i tok, f2 ≤ i → i < t2 → (ftoks d.kids)[i]? = some tok →
+      markupFn S (.addMark f2 t2 mk) ((ctxOf (S.tyOf d) (ftoks da.kids)).getD (c + (i - f2)) 0) tok =
+        markupFn S (.addMark f2 t2 mk) ((ctxOf (S.tyOf d) (ftoks d.kids)).getD i 0) tok := by
+    intro c hc i tok g1 g2 g3
+    show addTok S mk _ tok = addTok S mk _ tok
+    have htok : (ftoks d.kids).getD i Tok.cl = tok := by
+      rw [List.getD_eq_getElem?_getD, g3]; rfl
+    by_cases hat : isAtomTok S tok = true
+    · have := hstable i g2 g1 (by rw [htok]; exact hat)
+      rw [show f2' = c by omega] at this
+      rw [this]
+    · simp [addTok, hat]
+  have key : ∃ g, Step.addMark f2' t2' mk = (Step.addMark f2 t2 mk).mapPos g ∧
+      A' = .replaceAround f t gf gt sl ins st ∧ ftoks dab.kids = ftoks dba.kids := by
+    rcases hsep with ⟨h, h'⟩ | h
+    · have hmapped := (markup_map_around _ f2 t2 hsp hle f t gf gt sl ins st hg).2.1 h h'
+      have hM'' := hM'
+      rw [hmapped] at hM''
+      simp only [Step.mapPos, Option.some.injEq, Step.addMark.injEq, and_true] at hM''
+      obtain ⟨e1, e2, e3⟩ := commute_around_markup_gap S d da db dab dba f t gf gt ins sl st _ _ A'
+        f2 t2 hsp hle hs h h' ha hb hM' hA' hab hba t2 rfl
+        (fun i tok g1 g2 g3 => by
+          have := stab (f + ins + (f2 - gf)) (by omega) i tok g1 g2 g3
+          rwa [show f + ins + (f2 - gf) + (i - f2) = f + ins + (i - gf) by omega] at this)
+      exact ⟨_, e1, e2, e3⟩
+    · have hmapped := (markup_map_around _ f2 t2 hsp hle f t gf gt sl ins st hg).2.2 h
+      have hM'' := hM'
+      rw [hmapped] at hM''
+      simp only [Step.mapPos, Option.some.injEq, Step.addMark.injEq, and_true] at hM''
+      obtain ⟨e1, e2, e3⟩ := commute_around_markup_after S d da db dab dba f t gf gt ins sl st _ _ A'
+        f2 t2 hsp hle hs h ha hb hM' hA' hab hba t2 rfl
+        (fun i tok g1 g2 g3 => by
+          have := stab (f + (gt - gf) + sl.toks.length + (f2 - t)) (by omega) i tok g1 g2 g3
+          rwa [show f + (gt - gf) + sl.toks.length + (f2 - t) + (i - f2) =
+            f + (gt - gf) + sl.toks.length + (i - t) by omega] at this)
+      exact ⟨_, e1, e2, e3⟩
+  obtain ⟨g, e1, e2, e3⟩ := key
+  refine ⟨e3, fun hn1 hn2 => ?_⟩
+  subst e2
+  rw [e1] at hab
+  exact around_markup_docs S d da db dab dba f t gf gt ins sl st _ g f2 t2 hsp ha hb hab hba e3 hn1 hn2
+
+/-! ### both rebased orders apply — replace step vs. replace-around step
+
+False without a guard for the same reason as `commute_needs_guard`.  A replace-around step applies as:
+(structure checks, if flagged) – cut the gap `d.slice gapFrom gapTo` (must be closed) – put it into the
+slice (`insert_at`) – plain replace of `[from, to)` by the result.  When the other step works on a
+separate part, the gap is found again in its result at the mapped positions as the *same* closed slice
+(`slice_again`, Proofs/CommuteAroundSuccess.lean), so the rebased replace-around step is the same plain
+replace, shifted, and `commute_succeeds_replace` applies with the guard evaluated on
+`(from, to, slice.openStart)` of the replace-around step.  The structure checks pass again because
+`content_between` is a function of the tokens of the range (`contentBetween_eq`,
+Proofs/ContentBetweenToks.lean: "content" unless the range reads close tokens, then open tokens), and the
+two ranges show the same tokens.  Not covered: the replace step inside the kept gap (the gap content, hence
+the inserted slice, differs), two replace-around steps. -/
+
+/-- **the replace step lies before the replace-around step**: neither rebased step is dropped, both orders
+    apply, and they give the same document -/
+theorem commute_succeeds_around_before (S : Schema) (d da db : Node) (f t gf gt ins f1 t1 : Nat)
+    (sl s1 : Slice) (st b1 : Bool)
+    (hn : fnorm d.kids = true) (hsn1 : fnorm s1.content = true) (hsn : fnorm sl.content = true)
+    (hs : AroundShape f t gf gt sl ins) (hsep : t1 < f)
+    (ha : S.apply (.replace f1 t1 s1 b1) d = .ok da)
+    (hb : S.apply (.replaceAround f t gf gt sl ins st) d = .ok db)
+    (hg : commuteGuard d.kids f1 t1 s1 f t sl = true) :
+    ∃ A' R' dab,
+      (Step.replaceAround f t gf gt sl ins st).map (Step.replace f1 t1 s1 b1).getMap = some A' ∧
+      (Step.replace f1 t1 s1 b1).map (Step.replaceAround f t gf gt sl ins st).getMap = some R' ∧
+      S.apply A' da = .ok dab ∧ S.apply R' db = .ok dab := by
+  obtain ⟨gap, inserted, hgap, ho1, ho2, hinst, hfr1⟩ :=
+    apply_replaceAround_parts S d db f t gf gt sl ins st hb
+  obtain ⟨_, hl, _, _⟩ := apply_around_aroundL S d db f t gf gt sl ins st hs hb
+  obtain ⟨hwf, hins, hgo⟩ := hs
+  obtain ⟨_, hio1, _⟩ := insertAt_toks S sl inserted ins gap.content hwf hins hinst
+  have hgap' : sliceKids d.kids gf gt = .ok gap := hgap
+  have hgn := sliceKids_norm d.kids gf gt gap hn hgap'
+  have hin := insertAt_norm S sl inserted ins gap.content hsn hgn.1 hinst
+  have hb2 : S.apply (.replace f t inserted false) d = .ok db := by simpa [Schema.apply] using hfr1
+  have hg' : commuteGuard d.kids f1 t1 s1 f t inserted = true := by
+    rw [commuteGuard_openStart _ _ _ _ _ s1 sl s1 inserted rfl hio1]; exact hg
+  obtain ⟨a', b', dab, hb', ha', hab, hba⟩ := commute_succeeds_replace S d da db f1 t1 f t s1 inserted
+    b1 false hn hsn1 hin hsep ha hb2 hg'
+  obtain ⟨hda, h1, hl1, hlen1⟩ := apply_replace_splice S d da f1 t1 s1 b1 ha
+  obtain ⟨r1, r2⟩ := rebase_separated_after f1 t1 f t s1 inserted b1 false h1 (by omega) hsep (by omega)
+  rw [r1] at hb'; rw [r2] at ha'
+  simp only [Option.some.injEq] at hb' ha'
+  subst hb' ha'
+  have hna : fnorm da.kids = true := by
+    obtain ⟨ty, a, m, K, Ka, rfl, rfl, hr⟩ := fromReplace_elem S d da f1 t1 s1
+      (apply_replace_fromReplace S d da f1 t1 s1 b1 ha)
+    exact replaceKids_norm S ty K f1 t1 s1 Ka hn hsn1 hr
+  have n : ∀ p : Nat, t1 < p →
+      ((p : Int) + (s1.size - ((t1 : Int) - f1))).toNat = f1 + s1.toks.length + (p - t1) := by
+    intro p hp; omega
+  have n' : ∀ p : Nat, t1 < p →
+      ((p : Int) + s1.size - ((t1 : Int) - f1)).toNat = f1 + s1.toks.length + (p - t1) := by
+    intro p hp; omega
+  refine ⟨_, _, dab, around_map_replace_before f t gf gt ins f1 t1 sl s1 st b1 hgo h1 hsep,
+    replace_map_around_after f t gf gt ins f1 t1 sl s1 st b1 h1 hsep, ?_, hba⟩
+  have hfr : S.fromReplace da ((f : Int) + (s1.size - ((t1 : Int) - f1))).toNat
+      ((t : Int) + (s1.size - ((t1 : Int) - f1))).toNat inserted = .ok dab := by
+    have := apply_replace_fromReplace S da dab _ _ inserted false hab
+    rwa [n' f (by omega), n' t (by omega), ← n f (by omega), ← n t (by omega)] at this
+  have hlenda : (ftoks da.kids).length = f1 + s1.toks.length + ((ftoks d.kids).length - t1) := by
+    rw [hda]; exact splice_length _ _ _ _ h1 hl1
+  have hst : st = true →
+      contentBetween da ((f : Int) + (s1.size - ((t1 : Int) - f1))).toNat
+        ((gf : Int) + (s1.size - ((t1 : Int) - f1))).toNat = some false ∧
+      contentBetween da ((gt : Int) + (s1.size - ((t1 : Int) - f1))).toNat
+        ((t : Int) + (s1.size - ((t1 : Int) - f1))).toNat = some false := by
+    intro hstt
+    subst hstt
+    rw [n f (by omega), n gf (by omega), n gt (by omega), n t (by omega)]
+    exact struct_checks_again d da f t gf gt _ _ _ _ hn hna hgo (by rw [← ftoks_length]; omega)
+      (by rw [← ftoks_length, hlenda]; omega) (by omega) (by omega) (by omega)
+      (by rw [hda]; exact splice_window_after _ _ f1 t1 f _ h1 (by omega) hl1)
+      (by rw [hda]; exact splice_window_after _ _ f1 t1 gt _ h1 (by omega) hl1)
+      (apply_replaceAround_struct S d db f t gf gt sl ins hb)
+  refine around_applies_of_parts S da dab _ _ _ _ sl ins st gap inserted ?_ ho1 ho2 hinst hfr hst
+  show sliceKids da.kids _ _ = .ok gap
+  rw [n gf (by omega), n gt (by omega)]
+  have := slice_again d.kids da.kids gf gt (f1 + s1.toks.length + (gf - t1)) gap hn hna hgo.2.1
+    (by rw [← ftoks_length]; omega) (by rw [← ftoks_length, hlenda]; omega) hgap' ho1 ho2
+    (by rw [hda]; exact splice_window_after _ _ f1 t1 gf _ h1 (by omega) hl1)
+    (fun hlt => by
+      obtain ⟨al1, al2⟩ := sliceKids_aligned d.kids gf gt gap hlt hgap'
+      refine ⟨aligned_after_splice d.kids da.kids _ f1 t1 gf hn hna hda h1 hl1 (by omega) al1, ?_⟩
+      have := aligned_after_splice d.kids da.kids _ f1 t1 gt hn hna hda h1 hl1 (by omega) al2
+      rwa [show f1 + s1.toks.length + (gt - t1) = f1 + s1.toks.length + (gf - t1) + (gt - gf) by omega]
+        at this)
+  rwa [show f1 + s1.toks.length + (gf - t1) + (gt - gf) = f1 + s1.toks.length + (gt - t1) by omega] at this
+
+/-- **the replace step lies after the replace-around step** -/
+theorem commute_succeeds_around_after (S : Schema) (d da db : Node) (f t gf gt ins f1 t1 : Nat)
+    (sl s1 : Slice) (st b1 : Bool)
+    (hn : fnorm d.kids = true) (hsn1 : fnorm s1.content = true) (hsn : fnorm sl.content = true)
+    (hs : AroundShape f t gf gt sl ins) (hsep : t < f1)
+    (ha : S.apply (.replace f1 t1 s1 b1) d = .ok da)
+    (hb : S.apply (.replaceAround f t gf gt sl ins st) d = .ok db)
+    (hg : commuteGuard d.kids f t sl f1 t1 s1 = true) :
+    ∃ A' R' dab,
+      (Step.replaceAround f t gf gt sl ins st).map (Step.replace f1 t1 s1 b1).getMap = some A' ∧
+      (Step.replace f1 t1 s1 b1).map (Step.replaceAround f t gf gt sl ins st).getMap = some R' ∧
+      S.apply A' da = .ok dab ∧ S.apply R' db = .ok dab := by
+  obtain ⟨gap, inserted, hgap, ho1, ho2, hinst, hfr1⟩ :=
+    apply_replaceAround_parts S d db f t gf gt sl ins st hb
+  obtain ⟨_, hl, hX, hY⟩ := apply_around_aroundL S d db f t gf gt sl ins st hs hb
+  obtain ⟨hwf, hins, hgo⟩ := hs
+  obtain ⟨hitk, hio1, _⟩ := insertAt_toks S sl inserted ins gap.content hwf hins hinst
+  have hgap' : sliceKids d.kids gf gt = .ok gap := hgap
+  have hgn := sliceKids_norm d.kids gf gt gap hn hgap'
+  have hin := insertAt_norm S sl inserted ins gap.content hsn hgn.1 hinst
+  have hb2 : S.apply (.replace f t inserted false) d = .ok db := by simpa [Schema.apply] using hfr1
+  have hg' : commuteGuard d.kids f t inserted f1 t1 s1 = true := by
+    rw [commuteGuard_openStart _ _ _ _ _ sl s1 inserted s1 hio1 rfl]; exact hg
+  obtain ⟨a', b', dab, hb', ha', hab, hba⟩ := commute_succeeds_replace S d db da f t f1 t1 inserted s1
+    false b1 hn hin hsn1 hsep hb2 ha hg'
+  obtain ⟨hda, h1, hl1, hlen1⟩ := apply_replace_splice S d da f1 t1 s1 b1 ha
+  obtain ⟨_, _, _, hleni⟩ := apply_replace_splice S d db f t inserted false hb2
+  have hgaplen : (ftoks gap.content).length = gt - gf := by
+    have : gap = ⟨gap.content, 0, 0⟩ := by cases gap; simp at ho1 ho2; simp [ho1, ho2]
+    rw [← Slice.toks_closed, ← this, sliceKids_toks d.kids gf gt gap hgo.2.1
+      (by rw [← ftoks_length]; omega) hgap', List.length_take, List.length_drop]
+    omega
+  have hisz : inserted.size = sl.size + ((gt : Int) - gf) := by
+    have h1 := congrArg List.length hitk
+    obtain ⟨hl2, _⟩ := Slice.toks_length_of_wf_ex sl hwf
+    simp only [List.length_append, List.length_take, List.length_drop, hgaplen] at h1
+    omega
+  obtain ⟨r1, r2⟩ := rebase_separated_after f t f1 t1 inserted s1 false b1 (by omega) h1 hsep (by omega)
+  rw [r1] at hb'; rw [r2] at ha'
+  simp only [Option.some.injEq] at hb' ha'
+  subst hb' ha'
+  have hna : fnorm da.kids = true := by
+    obtain ⟨ty, a, m, K, Ka, rfl, rfl, hr⟩ := fromReplace_elem S d da f1 t1 s1
+      (apply_replace_fromReplace S d da f1 t1 s1 b1 ha)
+    exact replaceKids_norm S ty K f1 t1 s1 Ka hn hsn1 hr
+  refine ⟨_, _, dab, around_map_replace_after f t gf gt ins f1 t1 sl s1 st b1 hgo hsep,
+    replace_map_around_before f t gf gt ins f1 t1 sl s1 st b1 hgo h1 hsep, ?_, ?_⟩
+  · have hfr := apply_replace_fromReplace S da dab _ _ inserted false hba
+    have hlenda : (ftoks da.kids).length = f1 + s1.toks.length + ((ftoks d.kids).length - t1) := by
+      rw [hda]; exact splice_length _ _ _ _ h1 hl1
+    have hst : st = true → contentBetween da f gf = some false ∧ contentBetween da gt t = some false := by
+      intro hstt
+      subst hstt
+      exact struct_checks_again d da f t gf gt f t gf gt hn hna hgo (by rw [← ftoks_length]; omega)
+        (by rw [← ftoks_length, hlenda]; omega) (by omega) (by omega) (by omega)
+        (by rw [hda]; exact splice_window_before _ _ f1 t1 f _ (by omega) (by omega))
+        (by rw [hda]; exact splice_window_before _ _ f1 t1 gt _ (by omega) (by omega))
+        (apply_replaceAround_struct S d db f t gf gt sl ins hb)
+    refine around_applies_of_parts S da dab _ _ _ _ sl ins st gap inserted ?_ ho1 ho2 hinst hfr hst
+    show sliceKids da.kids _ _ = .ok gap
+    have := slice_again d.kids da.kids gf gt gf gap hn hna hgo.2.1
+      (by rw [← ftoks_length]; omega) (by rw [← ftoks_length, hlenda]; omega) hgap' ho1 ho2
+      (by rw [hda]; exact splice_window_before _ _ f1 t1 gf _ (by omega) (by omega))
+      (fun hlt => by
+        obtain ⟨al1, al2⟩ := sliceKids_aligned d.kids gf gt gap hlt hgap'
+        refine ⟨aligned_before_splice d.kids da.kids _ f1 t1 gf hn hna hda (by omega) (by omega) al1, ?_⟩
+        have := aligned_before_splice d.kids da.kids _ f1 t1 gt hn hna hda (by omega) (by omega) al2
+        rwa [show gt = gf + (gt - gf) by omega] at this)
+    rwa [show gf + (gt - gf) = gt by omega] at this
+  · have e : ∀ p : Nat, ((p : Int) + inserted.size - ((t : Int) - f)).toNat =
+        ((p : Int) + ((ins : Int) - ((gf : Int) - f)) + (sl.size - ins - ((t : Int) - gt))).toNat := by
+      intro p; congr 1; omega
+    rw [← e f1, ← e t1]
+    exact hab
+
+/-- **a replace step and a replace-around step, the replace step's range strictly before `from` or strictly
+    after `to`, one of the two inside a node the other one does not touch** (`commuteGuard` on
+    `(from, to, slice)` of the replace-around step): neither rebased step is dropped, both orders apply,
+    and they give the same document -/
+theorem commute_succeeds_around (S : Schema) (d da db : Node) (f t gf gt ins f1 t1 : Nat)
+    (sl s1 : Slice) (st b1 : Bool)
+    (hn : fnorm d.kids = true) (hsn1 : fnorm s1.content = true) (hsn : fnorm sl.content = true)
+    (hs : AroundShape f t gf gt sl ins)
+    (ha : S.apply (.replace f1 t1 s1 b1) d = .ok da)
+    (hb : S.apply (.replaceAround f t gf gt sl ins st) d = .ok db)
+    (hg : (t1 < f ∧ commuteGuard d.kids f1 t1 s1 f t sl = true) ∨
+      (t < f1 ∧ commuteGuard d.kids f t sl f1 t1 s1 = true)) :
+    ∃ A' R' dab,
+      (Step.replaceAround f t gf gt sl ins st).map (Step.replace f1 t1 s1 b1).getMap = some A' ∧
+      (Step.replace f1 t1 s1 b1).map (Step.replaceAround f t gf gt sl ins st).getMap = some R' ∧
+      S.apply A' da = .ok dab ∧ S.apply R' db = .ok dab := by
+  rcases hg with ⟨h, hg⟩ | ⟨h, hg⟩
+  · exact commute_succeeds_around_before S d da db f t gf gt ins f1 t1 sl s1 st b1 hn hsn1 hsn hs h ha hb hg
+  · exact commute_succeeds_around_after S d da db f t gf gt ins f1 t1 sl s1 st b1 hn hsn1 hsn hs h ha hb hg
 
 end PM.C17
